@@ -49,6 +49,8 @@ func main() {
 		os.Exit(cmdCheck(os.Args[2:]))
 	case "vc":
 		os.Exit(cmdVC(os.Args[2:]))
+	case "sweepgen":
+		os.Exit(cmdSweepGen(os.Args[2:]))
 	default:
 		fmt.Fprintln(os.Stderr, "unknown command")
 		os.Exit(2)
@@ -187,7 +189,7 @@ func (r *CheckRun) Run() int {
 		return 2
 	}
 	P.computeModsets()
-	quickMs, slowMs := 4000, 20000
+	quickMs, slowMs := 3000, 10000
 	if r.Tier == "thorough" {
 		quickMs, slowMs = 10000, 60000
 	}
@@ -576,3 +578,48 @@ var engineAssumptions = []string{
 func (r *CheckRun) extraEvidence(ev map[string]interface{}) {}
 
 func (r *CheckRun) tryReplay(a *AggObl, replayPath string) bool { return false }
+
+// cmdSweepGen generates (without solving) a VC for every module function: an engine self-test.
+func cmdSweepGen(args []string) int {
+	fs := flag.NewFlagSet("sweepgen", flag.ExitOnError)
+	repo := fs.String("repo", "/repo", "")
+	verif := fs.String("verif", "/verif", "")
+	fs.Parse(args)
+	P, err := loadAll(*repo, *verif)
+	if err != nil {
+		fmt.Fprintln(os.Stderr, err)
+		return 2
+	}
+	var keys []string
+	for k, f := range P.Funcs {
+		if len(f.Blocks) > 0 && f.Pkg != nil && inModule(f.Pkg.Pkg) && !strings.Contains(k, "/mocks/") {
+			keys = append(keys, k)
+		}
+	}
+	sort.Strings(keys)
+	nobl := 0
+	unsup := map[string]int{}
+	for _, k := range keys {
+		func() {
+			defer func() {
+				if r := recover(); r != nil {
+					fmt.Printf("PANIC %s: %v\n", k, r)
+				}
+			}()
+			vc := NewVC(P, P.Funcs[k], "")
+			vc.safetyProp = true
+			if err := vc.Generate(); err != nil {
+				fmt.Printf("ERROR %s: %v\n", k, err)
+				return
+			}
+			vc.finish()
+			nobl += len(vc.obls)
+			for _, u := range vc.unsupported {
+				unsup[u]++
+				fmt.Printf("UNSUP %s: %s\n", shortKey(k), u)
+			}
+		}()
+	}
+	fmt.Printf("%d functions, %d obligations\n", len(keys), nobl)
+	return 0
+}
